@@ -69,7 +69,8 @@ async fn c14_async(ctx: &mut Ctx) {
             return;
         }
     };
-    let n = 2 + ctx.tape.choose(60) as usize;
+    // table size: usually up to 61 peers, sometimes so many that three or four buckets are full
+    let n = if ctx.tape.choose(4) == 0 { 100 + ctx.tape.choose(76) as usize } else { 2 + ctx.tape.choose(60) as usize };
     // record sizes: 0 plain (~150 bytes), 1 all padded to the 300-byte limit, 2 every size in between (byte granularity)
     let sizes = ctx.tape.choose(4).min(2);
     ctx.ev(format!("cfg max_nodes_response={max_nodes} peers={n} record_sizes={}", ["plain", "maximal", "mixed"][sizes as usize]));
@@ -349,6 +350,17 @@ async fn c17_async(ctx: &mut Ctx) {
                 opinion.insert(v, o);
                 ctx.fault("voter_changes_vote");
             }
+            3 => {
+                // the application overrides the advertised UDP socket by hand (not a vote-driven change: no event is
+                // owed for it); a later vote-driven change back to an address announced before must be announced again
+                let w: SocketAddr = "192.0.2.200:9999".parse().unwrap();
+                let r = sw.d.update_local_enr_socket(w, false);
+                ctx.fault("user_overrides_advertised_socket");
+                ctx.ev(format!("t={} update_local_enr_socket({w}) -> {r}", now_ms()));
+                let enr = sw.d.local_enr();
+                last_sock = socks(&enr);
+                last_seq = enr.seq();
+            }
             2 => {
                 // a PING goes unanswered: the peer is marked disconnected, its earlier (unexpired) vote stands
                 if !held.is_empty() {
@@ -566,7 +578,12 @@ async fn c20_async(ctx: &mut Ctx) {
                 }
             } else {
                 // (an explicitly empty payload is a response like any other)
-                let payload = if ctx.tape.choose(4) == 0 { vec![] } else { vec![0xEE, id[1], 1] };
+                // payloads of every size class: empty, small, around the largest that fits a datagram, larger
+                let payload = match ctx.tape.choose(8) {
+                    0 | 1 => vec![],
+                    2 => vec![0x5a; *ctx.tape.pick(&[1100usize, 1176, 1177, 1200, 1300, 5000])],
+                    _ => vec![0xEE, id[1], 1],
+                };
                 let r = req.respond(payload.clone());
                 ctx.ev(format!("t={} app responds {} -> {}", now_ms(), hex::encode(&id), if r.is_ok() { "ok" } else { "err" }));
                 if handler_alive {
